@@ -175,9 +175,12 @@ def run(run, model):
                       "visits every sub-term (shared with C01 R01.3, restricted to collect_dyn_requirements)")
     try:
         trs = P.discover(model, include_pprint=False)
-        run.try_rule(c01.r01_3, model, trs, (r"collect_dyn_requirements",))
+        run.try_rule(c01.r01_3, model, trs, (r"collect_dyn_requirements", r"collect_captured"))
     except AnalysisIncomplete as e:
         run.skipped.append({"rule_fn": "r01_3", "reason": str(e)})
+    from rules import c02
+    run.rule("R17.8", "the dyn call site and the vtable definition spell the method slot alike (shared with C02 R02.8: every Go name slot is mangled)")
+    run.try_rule(c02.r02_8, model)
     from rules import c03
     run.rule("R17.6", "a coercion to dyn is recorded once per expression: call arguments are type-checked once (shared with C03 R03.11); a second "
                       "pass pushes the ToDyn coercion again and the value is wrapped twice")
